@@ -39,7 +39,7 @@ theorem bbnoh_ideal_branches (p : BBNohIdeal.P) (r t : ℝ) (h : BBNohIdeal.outc
   simp only [epv_tree] at h ⊢
   split_ifs at h ⊢ <;> first
     | epv_absurd
-    | (simp only [epv_cond] at *; first | rfl | (exfalso; simp_all))
+    | (simp only [epv_cond] at *; first | rfl | (exfalso; linarith) | (exfalso; simp_all))
 
 /-- at r = X(t) = x2·t the two branches are the shocked state and the incoming gas of the specification -/
 theorem bbnoh_ideal_states_at_shock (p : BBNohIdeal.P) (m : ℕ) (hm : p.symmetry = m) (t : ℝ) (ht : t ≠ 0)
